@@ -15,7 +15,7 @@ statement:
 expr:
   number | bool | "name" (variable) | ["+"|"*"|"-"|"/"|"%"|"**", e, e] | ["[]", e, e] |
   ["call", fname, [e...], {kw: e}] | ["cmp", op, e, e] | ["not", e] | ["and"|"or"|"min"|"max", e, ...] |
-  ["if", c, t, e] | ["arr", e, ...] (numpy object array of expressions)
+  ["if", c, t, e] | ["arr", e, ...] (numpy object array of expressions) | [".", e, attribute] (attribute lookup)
 """
 import copy
 import dataclasses
@@ -77,6 +77,8 @@ def dec(e):
         return P.Max(tuple(dec(a) for a in e[1:]))
     if op == "if":
         return P.If(dec(e[1]), dec(e[2]), dec(e[3]))
+    if op == ".":
+        return P.Lookup(dec(e[1]), e[2])                  # attribute lookup: a.size, y.real
     if op == "arr":
         # a numpy object array with symbolic entries (the Python generator and the interpreter take these entry by entry)
         out = np.empty(len(e) - 1, dtype=object)
@@ -102,6 +104,8 @@ def svars(e):
         return out
     if op == "cmp":
         return svars(e[2]) | svars(e[3])
+    if op == ".":
+        return svars(e[1])
     out = set()
     for a in e[1:]:
         out |= svars(a)
@@ -430,7 +434,7 @@ def exhaustive_statements():
         yield {"t": "Call", "assignees": asg, "f": f, "args": a, "kw": k, "cond": c}
     for e, t, c in itertools.product(
             ["x", ["[]", "a", "j"], ["+", "<state>y", ["*", "<dt>", "x"]], ["call", "<func>f", ["<p>k"]], 1],
-            [0, "<t>", ["+", "<t>", "<dt>"], "n"], CONDS):
+            [0, "<t>", ["+", "<t>", "<dt>"], "n", "x"], CONDS):     # "x" has no value in one of the contexts
         yield {"t": "Yield", "expr": e, "time": t, "cond": c}
     for t, c in itertools.product(["Fail", "Raise", "Switch"], CONDS):
         yield {"t": t, "cond": c}
@@ -441,6 +445,16 @@ def exhaustive_statements():
         yield {"t": "Assign", "lhs": "r", "sub": None, "rhs": r, "loops": [], "cond": c}
         yield {"t": "Yield", "expr": r, "time": "<t>", "cond": c}
         yield {"t": "Call", "assignees": ["x"], "f": "<func>f", "args": [r], "kw": {}, "cond": c}
+    # attribute lookups (a.size, <state>y.real, ...) in every position that has its own traversal
+    lk = [[".", "a", "size"], [".", "<state>y", "real"], ["+", [".", "x", "real"], [".", "<state>v", "size"]]]
+    for e_, c in itertools.product(lk, CONDS):
+        yield {"t": "Assign", "lhs": "a", "sub": "i", "rhs": ["*", 2, "i"], "loops": [["i", 0, e_]], "cond": c}
+        yield {"t": "Assign", "lhs": "r", "sub": None, "rhs": e_, "loops": [], "cond": c}
+        yield {"t": "Assign", "lhs": "a", "sub": ["%", e_, 2], "rhs": 1, "loops": [], "cond": c}
+        yield {"t": "Yield", "expr": e_, "time": ["+", "<t>", [".", "<dt>", "real"]], "cond": c}
+        yield {"t": "Call", "assignees": ["x"], "f": "<func>f", "args": [e_], "kw": {}, "cond": c}
+        yield {"t": "Call", "assignees": ["x"], "f": "<func>f", "args": [], "kw": {"x": e_}, "cond": c}
+        yield {"t": "Assign", "lhs": "r", "sub": None, "rhs": 1, "loops": [], "cond": ["cmp", ">", e_, 0]}
     for c in CONDS:
         yield {"t": "Implicit", "assignees": ["x"], "solve": ["s"],
                "exprs": [["-", "s", ["*", "<dt>", ["call", "<func>f", [["+", "s", "j"]]]]]],
